@@ -400,6 +400,8 @@ where
         Arc<K>: Borrow<Q>,
         Q: Hash + Eq + ?Sized,
     {
+        #[cfg(mini_moka_verif)]
+        crate::verif::sp("contains.begin");
         self.base.contains_key(key)
     }
 
@@ -442,7 +444,11 @@ where
     }
 
     pub(crate) fn insert_with_hash(&self, key: Arc<K>, hash: u64, value: V) {
+        #[cfg(mini_moka_verif)]
+        crate::verif::sp("insert.begin");
         let (op, now) = self.base.do_insert_with_hash(key, hash, value);
+        #[cfg(mini_moka_verif)]
+        crate::verif::sp("insert.map_done");
         let hk = self.base.housekeeper.as_ref();
         Self::schedule_write_op(
             self.base.inner.as_ref(),
@@ -463,7 +469,11 @@ where
         Arc<K>: Borrow<Q>,
         Q: Hash + Eq + ?Sized,
     {
+        #[cfg(mini_moka_verif)]
+        crate::verif::sp("invalidate.begin");
         if let Some(kv) = self.base.remove_entry(key) {
+            #[cfg(mini_moka_verif)]
+            crate::verif::sp("invalidate.map_done");
             let op = WriteOp::Remove(kv);
             let now = self.base.current_time_from_expiration_clock();
             let hk = self.base.housekeeper.as_ref();
@@ -489,6 +499,8 @@ where
     /// popularity estimator of keys so that it retains the client activities of
     /// trying to retrieve an item.
     pub fn invalidate_all(&self) {
+        #[cfg(mini_moka_verif)]
+        crate::verif::sp("invalidate_all.begin");
         self.base.invalidate_all();
     }
 }
@@ -544,6 +556,8 @@ where
     S: BuildHasher + Clone + Send + Sync + 'static,
 {
     fn sync(&self) {
+        #[cfg(mini_moka_verif)]
+        crate::verif::sp("sync.begin");
         self.base.inner.sync(MAX_SYNC_REPEATS);
     }
 }
@@ -585,17 +599,64 @@ where
         // - We are doing a busy-loop here. We were originally calling `ch.send(op)?`,
         //   but we got a notable performance degradation.
         loop {
+            #[cfg(mini_moka_verif)]
+            crate::verif::sp("write.loop");
             BaseCache::<K, V, S>::apply_reads_writes_if_needed(inner, ch, now, housekeeper);
+            #[cfg(mini_moka_verif)]
+            {
+                crate::verif::sp("write.before_send");
+                // Fault point: behave as if the channel had been found full.
+                if crate::verif::buggify("write.full") {
+                    crate::verif::sp("write.retry");
+                    continue;
+                }
+            }
             match ch.try_send(op) {
                 Ok(()) => break,
                 Err(TrySendError::Full(op1)) => {
                     op = op1;
+                    // Under a simulator the retry sleep is a switch point.
+                    #[cfg(mini_moka_verif)]
+                    if crate::verif::active() {
+                        crate::verif::probe("write.channel_full", 0);
+                        crate::verif::sp("write.retry");
+                        continue;
+                    }
                     std::thread::sleep(Duration::from_micros(WRITE_RETRY_INTERVAL_MICROS));
                 }
                 Err(e @ TrySendError::Disconnected(_)) => return Err(e),
             }
         }
         Ok(())
+    }
+}
+
+// Verification hooks (read-only, except for installing the simulated clock).
+#[cfg(mini_moka_verif)]
+impl<K, V, S> Cache<K, V, S>
+where
+    K: Hash + Eq + Send + Sync + 'static,
+    V: Clone + Send + Sync + 'static,
+    S: BuildHasher + Clone + Send + Sync + 'static,
+{
+    /// Makes `clock` the only clock this cache reads.
+    pub fn verif_set_clock(&self, clock: &crate::verif::VerifClock) {
+        self.base.verif_set_clock(clock);
+    }
+
+    /// The popularity estimate the admission policy currently has for `key`.
+    pub fn verif_estimate(&self, key: &K) -> u8 {
+        self.base.verif_estimate(key)
+    }
+
+    /// What the cache physically holds, plus the result of a structural walk.
+    pub fn verif_snapshot(
+        &self,
+        base: std::time::Instant,
+        key_id: &dyn Fn(&K) -> u64,
+        val_id: &dyn Fn(&V) -> u64,
+    ) -> crate::verif::Snapshot {
+        self.base.verif_snapshot(base, key_id, val_id)
     }
 }
 
